@@ -155,17 +155,30 @@ class SchedRun:
                 run.app_spans.append(("exit", key, idx, run.sched.steps, run.sched.current_name()))
             return it
 
+        self.wref = [None]
+        self.tmap = TracedMap(self.wref)
         self.world = simnet.World(wrapped_app, adj=adj, sched=self.sched, sndbuf=sc.get("sndbuf", 1 << 20),
-                                  nlisten=sc.get("nlisten", 1), keep_tracebacks=True)
+                                  nlisten=sc.get("nlisten", 1), keep_tracebacks=True, map_obj=self.tmap)
         w = self.world
+        self.wref[0] = w
+        for li, plan in enumerate(sc.get("listener_faults") or []):
+            for k, v in (plan or {}).items():
+                op, idx = k.split(":")
+                w.listeners[li].faults[(op, int(idx))] = v if v in ("EOF", "generic") else getattr(errno, v)
         w.channels = []
         w.chan_events = []
         for srv in w.servers:
             srv.channel_class = make_traced_channel()
         self.conns = []
+        self.late = []
         self.client_state = []
         for ci, cs in enumerate(sc.get("conns", [])):
-            c = w.connect(addr=("127.0.0.1", 40000 + ci), listener=cs.get("listener", 0))
+            if cs.get("late"):
+                # connects only after the first quiescence (is the server still accepting?)
+                c = simnet.FakeSock(w, ("127.0.0.1", 40000 + ci))
+                self.late.append((c, cs.get("listener", 0)))
+            else:
+                c = w.connect(addr=("127.0.0.1", 40000 + ci), listener=cs.get("listener", 0))
             c.capacity = cs.get("capacity")
             c.client_reads = False
             for k, v in (cs.get("faults") or {}).items():
@@ -255,6 +268,18 @@ class SchedRun:
         self.first_quiescence = self.snapshot()
         resumed = False
         for ci, cs in enumerate(self.sc.get("conns", [])):
+            if cs.get("late_error") and not self.conns[ci].closed:
+                e = cs["late_error"]
+                self.conns[ci].err_pending = e if e == "generic" else getattr(errno, e)
+                self.world.progress += 1
+                resumed = True
+        for c, li in self.late:
+            if not self.world.listeners[li].closed:
+                self.world.listeners[li].backlog.append(c)
+                self.world.progress += 1
+                resumed = True
+        self.late = []
+        for ci, cs in enumerate(self.sc.get("conns", [])):
             st = self.client_state[ci]
             if st["stalled"] and cs.get("drain_resume"):
                 st["stalled"] = False
@@ -312,7 +337,19 @@ class SchedRun:
         r.events = list(self.sched.events)
         r.trigger_pulls = w.trigger_pulls
         r.spin = self.sched.spin
-        r.listener_open = [not l.closed for l in w.listeners]
+        r.listener_open = [(not l.closed) and (l.fd in w.map) for l in w.listeners]
+        r.trigger_in_map = all(getattr(srv.trigger, "_fileno", None) in w.map for srv in w.servers)
+        r.map_muts = list(self.tmap.muts)
+        r.backlogs = [len(l.backlog) for l in w.listeners]
+        r.chan_buffers = []
+        for ch in w.channels:
+            bufs_open = 0
+            for ob in ch.outbufs:
+                f = getattr(getattr(ob, "buf", None), "file", None)
+                if f is not None and not getattr(f, "closed", True):
+                    bufs_open += 1
+            r.chan_buffers.append({"fd": ch.sock_fd, "in_map": ch.sock_fd in w.map, "open_outbuf_files": bufs_open, "tol": ch.total_outbufs_len,
+                                   "requests": len(ch.requests)})
         r.map_keys = sorted(k for k in w.map)
         return r
 
